@@ -105,7 +105,7 @@ def kw_strategy(v, D):
     if v.startswith("hyp"):
         return st.fixed_dictionaries(dict(hyper_diffusivity=pos, diffuse_on_diffuse=st.just(v == "hyp1")))
     if v == "wave":
-        return st.fixed_dictionaries(dict(speed_of_sound=st.floats(0.1, 5.0).map(lambda x: float("%.6g" % x))))
+        return st.fixed_dictionaries(dict(speed_of_sound=st.one_of(gens.nonzero_coef(0.1, 5.0), gens.nonzero_coef(0.1, 5.0), gens.nonzero_coef(0.1, 5.0), st.just(0.0))))
     mag = st.one_of(st.just(0.0), st.floats(0.01, 2.0).map(lambda x: float("%.6g" % x)))
     odd = st.one_of(st.just(0.0), sc)
 
@@ -196,7 +196,7 @@ def check(case):
 
         e = np.array([energy(trj[j]) for j in range(trj.shape[0])])
         # |exp(i theta)| deviates from 1 by about 1e-17*theta for large phases theta = omega*dt
-        ph = 1.0 + 1e-3 * c * float(np.max(np.sqrt(k2))) * abs(dte)
+        ph = 1.0 + 1e-3 * abs(c) * float(np.max(np.sqrt(k2))) * abs(dte)
         if nyq_free:
             res.claim("wave_energy_conserved", float(np.max(np.abs(e - e[0]))), 1e-11 * e[0] * n * ph + 1e-300, key=key + ":wave_energy")
         else:
